@@ -95,11 +95,29 @@ impl FunctionExpression for TagTypesExternallyFn {
     }
 
     fn type_def(&self, state: &state::TypeState) -> TypeDef {
-        match self.value.type_def(state) {
-            td if td.is_array() => TypeDef::array(Collection::any()),
-            td if td.is_null() => TypeDef::null(),
-            _ => TypeDef::object(Collection::any()),
+        let td = self.value.type_def(state);
+
+        // arrays stay arrays, null stays null, every other value becomes (or stays) an object
+        let wrapped = td.contains_bytes()
+            || td.contains_integer()
+            || td.contains_float()
+            || td.contains_boolean()
+            || td.contains_timestamp()
+            || td.contains_regex()
+            || td.contains_object();
+
+        let mut kind = Kind::never();
+        if td.contains_array() {
+            kind = kind.or_array(Collection::any());
         }
+        if td.contains_null() {
+            kind = kind.or_null();
+        }
+        if wrapped || kind.is_never() {
+            kind = kind.or_object(Collection::any());
+        }
+
+        kind.into()
     }
 }
 
